@@ -62,6 +62,11 @@ def run(sid, props):
         print("patch does not apply:", out)
         return
     results = {}
+    # evidence/<id>.json must describe runs against /repo as it is: keep the files as they were before this run against a modified tree
+    saved = {}
+    for p in props:
+        ep = os.path.join(V, "evidence", p + ".json")
+        saved[ep] = open(ep).read() if os.path.exists(ep) else None
     try:
         for p in props:
             rc, out = sh("python3 tools/check.py %s" % p, cwd=V, timeout=3000)
@@ -70,6 +75,9 @@ def run(sid, props):
             print(p, rc, "\n   ".join(l[:300] for l in lines[:4]))
     finally:
         sh("git -C /repo checkout -- .")
+        for ep, txt in saved.items():
+            if txt is not None:
+                open(ep, "w").write(txt)
     meta["caught_by"] = [p for p, r in results.items() if r["exit"] == 1]
     meta["check_results"] = results
     json.dump(meta, open(os.path.join(d, "meta.json"), "w"), indent=1)
